@@ -1,7 +1,7 @@
 (* C18 — A resolution cache is transparent; documents are fetched at most once. *)
 From Coq Require Import List String Bool Arith.
 From Spec Require Import Base.Json Base.Url Codec.Types Codec.Gen_Tables Codec.Codec Codec.CodecFacts Expand.Expand Expand.ExpandFacts
-  Expand.ExpandSim Expand.ExpandSimCheck Expand.ExpandCycle Expand.ExpandElem Expand.ExpandCache Expand.ExpandTermG Expand.ExpandComplete Expand.ExpandExample.
+  Expand.ExpandSim Expand.ExpandSimCheck Expand.ExpandCycle Expand.ExpandElem Expand.ExpandCache Expand.ExpandTermG Expand.ExpandComplete Expand.ExpandExample Expand.ExpandElem Expand.ExpandChain Expand.ExpandSpecSim.
 Import ListNotations.
 Local Open Scope string_scope.
 
@@ -90,3 +90,30 @@ Proof.
   subst j2. exists s1', s2', j1. split; assumption.
 Qed.
 Print Assumptions C18_cache_transparent_total.
+
+(* ---------- the whole of ExpandSpec, up to meaning (Expand/ExpandSpecSim.v) ---------- *)
+(* Whatever two caches hold (any two sets of documents of the store: empty, pre-loaded with any subset, left over from earlier
+   calls) and whatever the memo of circular references holds (any references on cycles of the schema graph), two runs of
+   ExpandSpec on the same specification that both return yield documents that are BOTH related to the input by [spec_rel]:
+   the same names in the same order in every section, every definition, parameter, response and path item with the same
+   meaning as the input's, hence as each other's.  (Byte-for-byte equality of two runs that both succeed is
+   C18_cache_transparent for the schema walk; here the statement covers the four sections, up to meaning.) *)
+Theorem C18_expand_spec_means_the_same_with_any_cache : forall E docs cwd OP ctx_base rid nodes enodes bad0 ranks live,
+  (forall lu ld, live = Some (lu, ld) -> doc_at docs cwd lu = Some ld) ->
+  o_cont OP = false -> o_skip OP = false ->
+  check_nodes E docs cwd OP ctx_base rid nodes = true -> check_enodes E docs cwd enodes nodes = true ->
+  check_chains E docs cwd nodes enodes bad0 ranks = true -> check_pis enodes = true ->
+  forall d1 d2 root_url m s1 s2 s1' s2' out1 out2,
+  check_root ctx_base nodes enodes bad0 m = true -> Coh cwd (Some root_url) ctx_base ->
+  Inv2 E docs cwd rid (GN nodes) bad0 s1 -> Inv2 E docs cwd rid (GN nodes) bad0 s2 ->
+  expand_spec E docs cwd OP ctx_base live d1 root_url (JObj m) s1 = Done (s1', out1) ->
+  expand_spec E docs cwd OP ctx_base live d2 root_url (JObj m) s2 = Done (s2', out2) ->
+  spec_rel E docs cwd ctx_base (sound_schema E docs cwd OP ctx_base rid nodes bad0) m out1 /\
+  spec_rel E docs cwd ctx_base (sound_schema E docs cwd OP ctx_base rid nodes bad0) m out2.
+Proof.
+  intros E docs cwd OP ctx_base rid nodes enodes bad0 ranks live Hlive Hstrict Hskip Hck Hcke Hckc Hckp d1 d2 root_url m s1 s2 s1' s2' out1 out2 Hroot Hcoh Hs1 Hs2 H1 H2.
+  split.
+  - exact (proj2 (checked_spec_sim E docs cwd OP ctx_base rid nodes enodes bad0 ranks live Hlive Hstrict Hskip Hck Hcke Hckc Hckp d1 (S d1) root_url m s1 s1' out1 Hroot Hs1 Hcoh H1)).
+  - exact (proj2 (checked_spec_sim E docs cwd OP ctx_base rid nodes enodes bad0 ranks live Hlive Hstrict Hskip Hck Hcke Hckc Hckp d2 (S d2) root_url m s2 s2' out2 Hroot Hs2 Hcoh H2)).
+Qed.
+Print Assumptions C18_expand_spec_means_the_same_with_any_cache.
